@@ -435,7 +435,8 @@ Fixpoint pe_loop (rec : N -> etype -> list (N * cdata) -> option (list N) -> lis
          (match content with [] => ret tt | _ => check_multiplicity sub_name ty idx content end);;
          do sub_attrs <- parse_attribute_text sub_ty attr_text;
          do sub <- rec sub_name sub_ty sub_attrs stored_comment path (List.length content :: pos);
-         if sub_name =? name_short_name T then
+         (* only a SHORT-NAME that is the FIRST content item names the element (fix: late SHORT-NAME) *)
+         if (sub_name =? name_short_name T) && (match content with [] => true | _ => false end) then
            match first_string sub with
            | Some name_string =>
              let new_path := path ++ [47] ++ name_string in
